@@ -91,9 +91,10 @@ Fixpoint parity_rows (fuel : nat) (cnt : nat) (y : Z) (rows : list (list N)) (si
 
 Definition FUEL : nat := 64.
 
-(* encode.go:10-39 *)
+(* encode.go:10-43 *)
 Definition encode_with (fuel : nat) (data : list N) (size red : Z) : outcome (list (list N)) :=
   let len := Z.of_nat (length data) in
+  if size <=? 0 then Err else                (* guard added by fix 9813ac2 *)
   if size =? 0 then Panic else               (* len(data) % fragmentSize *)
   if negb (Z.rem len size =? 0) then Err else
   do rows <- data_rows (Z.to_nat (Z.quot len size)) data (Z.to_nat size);
